@@ -29,7 +29,8 @@ CLAIM = {
             "distinct paths); the concrete preload/redeclaration/emission-order model is invariant too and is compared "
             "with the real compiler on every run; every map-range loop of cl/*.go and x/build/*.go is regenerated from "
             "the source (go/types), must be in a reviewed list (obligation by computation) and has a permutation "
-            "lemma for its shape or a refutation (three order-dependent sites = three known findings). The rest of the "
+            "lemma for its shape (no order-dependent site is left after the repairs of initGopPkg, gmxCheckProjs and x/build "
+            "loadPackage, which are sorted folds now). The rest of the "
             "compiler is explored: corpus + generated packages compiled repeatedly in one process and in fresh "
             "processes with shuffled presentation, bytes and error strings compared.",
     "note": "Modelled, not verified: NewPackage's sorting/preload/load loops, initLoader, the loop shapes. Reviewed by "
@@ -39,7 +40,8 @@ CLAIM = {
 }
 
 FINDINGS = {
-    # deterministic witnesses of order dependence that are still present (see known_findings.d/C08.txt)
+    # names of the deterministic witnesses of the three order dependences that were repaired in /repo
+    # (initGopPkg, gmxCheckProjs, x/build loadPackage): regression inputs, reported under these keys
     "gofile-type-errors-order", "projs-default-class-collision", "builddir-two-packages",
 }
 
@@ -132,10 +134,19 @@ def run(ctx):
     ngen = ctx.n(90, 500)
     for i in range(ngen):
         errs = [0, 0, 1, 2, 3][ctx.rng.below(5)]
-        pk.append(("gen:%d:e%d" % (i, errs), g9gen.mixed_pkg(ctx.rng, errors=errs), {}))
+        gerrs = [0, 0, 2, 4][ctx.rng.below(4)]
+        pk.append(("gen:%d:e%d:g%d" % (i, errs, gerrs), g9gen.mixed_pkg(ctx.rng, errors=errs, go_type_errors=gerrs), {}))
     # x/build path on ordinary single-package directories
     for i in range(ctx.n(6, 100)):
         pk.append(("genbuild:%d" % i, g9gen.mixed_pkg(ctx.rng, errors=ctx.rng.below(2)), {"via": "build"}))
+    # directories with several packages and no main, through x/build (first sorted package name since the repair)
+    for i in range(ctx.n(4, 60)):
+        names = ["zeta", "alpha", "Mid", "beta", "a_b", "ab"]
+        files = []
+        for k in range(2 + ctx.rng.below(3)):
+            nm = names.pop(ctx.rng.below(len(names)))
+            files.append({"name": "%s%d.xgo" % (nm, k), "src": "package %s\n\nfunc F%d() int {\n\treturn %d\n}\n" % (nm, k, ctx.rng.below(9))})
+        pk.append(("genbuild-multi:%d" % i, files, {"via": "build", "reps": 16}))
     lines = [g9gen.case_line(cid, files, **extra) for cid, files, extra in pk]
     inp = "\n".join(lines) + "\n"
     R = ctx.n(8, 32)
@@ -188,9 +199,9 @@ def run(ctx):
                    "that redeclarations occur) model vs impl on (redeclaration errors | emission order); search: %d packages "
                    "(%d /repo corpus dirs, %d deterministic, %d witnesses of known findings, %d seeded mixed packages with 0-3 "
                    "compile errors, %d through x/build.BuildFSDir) x (%d in-process shuffled + %d fresh processes); "
-                   "non-trivial = distinct package with >= 2 files. Not generated (known findings, deterministic witnesses "
-                   "only): >= 2 erroneous Go-file type declarations in a mixed package; two class projects without project "
-                   "file sharing a default class name; a directory with several packages and no main through x/build. "
+                   "non-trivial = distinct package with >= 2 files. The witnesses of the three repaired order dependences (several "
+                   "erroneous Go-file types; two class projects sharing a default class name; several packages and no main through "
+                   "x/build) are regression inputs; erroneous Go-file types and multi-package directories are generated again in the seeded part. "
                    "Packages with parse errors are not generated (the parser's first-error choice is outside C08)."
                    % (len(ocases), n_order, len(pk), sum(1 for p in pk if p[0].startswith("corpus:")),
                       sum(1 for p in pk if p[0].startswith("det:")), len(wit), ngen, ctx.n(6, 100), R, F),
